@@ -116,7 +116,8 @@ class TimerWorld:
             w.now += a['dt']
         elif name == 'Sweep':
             events = w.sweep('A')
-            sent = [(k, d) for k, s, d in events if d is not None]
+            # (only the observed IKE_SA: the successor created by a rekey has timers of its own)
+            sent = [(k, d) for k, s, d in events if d is not None and s is self.sa]
             if len(sent) != a['sent']:
                 raise Mismatch('sent', f'sweep sent {len(sent)} datagram(s), specification: {a["sent"]} ({a["what"]})', a['sent'], [k for k, _ in sent])
             what = a['what']
@@ -192,6 +193,17 @@ class TimerWorld:
                 raise Mismatch('probe', "the peer's liveness probe is not answered while a request of ours is outstanding")
             if w.dispatch('B', res, 'A') is not None:
                 raise common.MachineryError('unexpected follow-up to a liveness answer')
+        elif name == 'AnswerFollowUp':
+            data = self.wire[-1]
+            res = w.dispatch('B', data, 'A')
+            if res is None:
+                raise Mismatch('answer', 'the peer did not answer an authentic request')
+            out = w.dispatch('A', res, 'B')
+            if out is None:
+                raise Mismatch('followup', 'no DELETE request follows the answer to a rekey')
+            self.current = bytes(out)
+            self.wire = [self.current]
+            self.times = [w.now]
         elif name == 'Answer':
             data = self.wire[-1]
             self.wire = []
@@ -328,7 +340,7 @@ def behaviours_multi_root(g):
     targets = set()
     for i, (f, a, dd, t) in enumerate(g.edges):
         out_edges[f].append(i)
-    roots = [i for i, s in enumerate(g.states) if s.get('sinceFirst') == 0 and s.get('gaps') == [] and s.get('lost') == 0 and not s.get('crashed')
+    roots = [i for i, s in enumerate(g.states) if s['kind'] in g.sc['StartKinds'] and s.get('sinceFirst') == 0 and s.get('gaps') == [] and s.get('lost') == 0 and not s.get('crashed')
              and s.get('swept') and s.get('sinceCrash') == 0 and s['dpdIn'] == _c_dpd(g) and s['rekeyIn'] == g.sc['Life']
              and (s['st'] == 'ESTABLISHED' and s['retx'] == 0 and s['wire'] == 0 or s['st'] == 'WAITING' and s['retx'] == 1 and s['wire'] == 1)]
     parent = {r: None for r in roots}
